@@ -77,7 +77,8 @@ def float_cases(seed, n):
         else:
             p = [2 * b[0] - a[0], 2 * b[1] - a[1]]
         c = [r.randrange(0, 1000) / dec, r.randrange(0, 1000) / dec]
-        out.append(dict(fam=fam, line=[[ec.to_exact(v) for v in q] for q in (c, a, b)], p=[ec.to_exact(v) for v in p]))
+        # a-b first: PointIntersectsLine is recorded for the first segment of the line, IsOnLine for all of them
+        out.append(dict(fam=fam, line=[[ec.to_exact(v) for v in q] for q in (a, b, c)], p=[ec.to_exact(v) for v in p]))
     return out
 
 
@@ -106,6 +107,62 @@ def float_pipe(ctx, verdict, cases, name="online-float"):
 PIPES["online-float"] = float_pipe
 
 
+def big_cases(seed, n):
+    """Rings of 3..8 vertices on grids of 2^20 and 2^26 (cross products far beyond 32 bits, beyond 2^53 for the larger
+    grid) with the same kinds of query points as the seeded TLC tier: on an edge, one step off it, level with a vertex,
+    on the supporting line beyond the edge, a vertex, random."""
+    r = random.Random(seed * 5 + 2)
+    out = []
+    for k in range(n):
+        G = r.choice([1 << 20, 1 << 26])
+        m = r.choice([3, 4, 5, 8])
+        ring = [ec.rnd_pt(r, G) for _ in range(m)]
+        if k % 4 == 0:
+            ring[1] = [ring[0][0] + r.randrange(1, G + 1), ring[0][1]]
+        i = r.randrange(m)
+        a, b = ring[i], ring[(i + 1) % m]
+        # a lattice point strictly inside an edge needs a common divisor: make one
+        g = r.randrange(2, 1000)
+        b2 = [a[0] + g * ((b[0] - a[0]) // g), a[1] + g * ((b[1] - a[1]) // g)]
+        if b2 != a:
+            ring[(i + 1) % m] = b = b2
+        p = ec.lattice_on(r, a, b)
+        qs = [p, [p[0] + r.choice([-1, 1]), p[1]], [p[0], p[1] + r.choice([-1, 1])], [a[0] - r.randrange(0, G), a[1]],
+              [2 * b[0] - a[0], 2 * b[1] - a[1]], ring[0][:], ec.rnd_pt(r, G), ec.rnd_pt(r, G // 2)]
+        out.append(dict(ring=ring, n=0, qs=qs, fam="2^%d" % (G.bit_length() - 1)))
+    return out
+
+
+def big_pipe(ctx, verdict, cases, name="locatex"):
+    """Large-grid tier: Apalache evaluates ExactGeom!Locate / OnLine on exact integers; every variant the driver records
+    (ring as given, reversed, rotated, duplicated vertices, four layouts with extra ordinates; IsPointInRing; IsOnLine)
+    must give the specification's answer."""
+    obs = list(vlib.run_driver(ctx, "locate", [dict(ring=c["ring"], n=0, qs=c["qs"]) for c in cases], for_tlc=False))
+    exprs, sigs = [], []
+    for c, o in zip(cases, obs):
+        closed = c["ring"] + [c["ring"][0]]
+        ring = "<<" + ", ".join(ec.tla_pt(q) for q in closed) + ">>"
+        conj = []
+        if o.get("ev", "ok") != "ok":
+            conj.append("FALSE")
+        for k, q in enumerate(c["qs"]):
+            if o.get("ev", "ok") != "ok":
+                break
+            pt = ec.tla_pt(q)
+            for got in sorted(set(o["loc"][k])):
+                conj.append('Locate(%s, %s) = "%s"' % (pt, ring, got))
+            for got in sorted(set(o["inringv"][k])):
+                conj.append('(Locate(%s, %s) # "exterior") = %s' % (pt, ring, {"true": "TRUE", "false": "FALSE"}.get(got, '"panic"')))
+            for got in sorted(set(o["onlinev"][k][:2])):
+                conj.append('OnLine(%s, %s) = %s' % (pt, ring, {"true": "TRUE", "false": "FALSE"}.get(got, '"panic"')))
+        exprs.append(" /\\ ".join(conj))
+        sigs.append("locate|big|" + c["fam"])
+    return ec.apalache_obs(ctx, verdict, "LocateX", exprs, cases, sigs, name, per_module=4 if ctx.quick else 25)
+
+
+PIPES["locatex"] = big_pipe
+
+
 def run(ctx, verdict):
     ec.family(ctx, verdict, "locate", nontrivial=lambda c: len({tuple(p) for p in c["ring"]}) >= 3)
     cases = seeded(ctx.seed, 1500 if ctx.quick else 20000)
@@ -114,6 +171,10 @@ def run(ctx, verdict):
     fcases = float_cases(ctx.seed, 640 if ctx.quick else 8000)
     vlib.note_cases(ctx, fcases)
     float_pipe(ctx, verdict, fcases)
+    big = big_cases(ctx.seed, 16 if ctx.quick else 600)
+    vlib.note_cases(ctx, big)
+    big_pipe(ctx, verdict, big)
+    ctx.coverage_extra["big_tier"] = dict(rings=len(big), queries=8 * len(big), grids=["2^20", "2^26"], checker="Apalache on ExactGeom!Locate / OnLine (exact integers)")
     ctx.coverage_extra["float_tier"] = dict(cases=len(fcases), checker="Apalache on ExactGeom!OnLine / OnSeg (exact integers)")
     ctx.coverage_extra["seeded"] = dict(rings=len(cases), grids=[6, 12, 30, 100, 1000, 4000], queries_per_ring="<= 48")
     ctx.assumptions += ["rings: every vertex sequence of 3..K points on the N x N grid (self-intersecting, repeated and "
